@@ -8,7 +8,7 @@ from .. import REPO_DIR, app, docprops, engine
 from ..runner import Run, h64
 from .c07 import CRASH_RE
 
-PLAN = {"B2/53": 180, "B3/89": 80, "N1/11": 250, "W1/2": 200, "S2": 120, "S3": 30, "I4/97": 120, "U1/7": 60, "P2": 100, "R2/3": 80, "R3/3": 60, "Z1/2": 150}
+PLAN = {"B2/853": 140, "B3/1409": 60, "N1/173": 200, "W1/32": 160, "S2/16": 100, "S3/4": 30, "I4/1553": 100, "U1/84": 50, "P2/36": 80, "R2/52": 60, "R3/36": 50, "Z1/16": 120, "Q2/20": 60, "P3/36": 60}
 EVALUATOR = "vp.props.c16:ev"
 RULE = (
     "documents = sub-lattices of the universes that parse and scan cleanly, in a line-ending / final-newline / non-ASCII variant chosen by source hash (as is, CR-LF, final newline toggled, "
